@@ -113,7 +113,37 @@ def dedupS : List String → List String → List String
 def exitClasses (body : List Stmt) : List String :=
   dedupS (classesOfL .top [] false 0 false (skOfL 0 body).1) []
 
-/-- `Supported`: the domain of `C03_partial` -/
-def C03Supported (body : List Stmt) : Bool := (exitClasses body).isEmpty
+/-! ### the one coincidence of the compile scheme: a `repeat while` written like a `repeat with`
+
+`set v = a` directly followed by `repeat while v <= b … set v = 1 + v end repeat` compiles to the very bytes of
+`repeat with v = a to b … end repeat` (compile is not injective there): no decompiler can tell them apart, and the real one prints
+the `repeat with`.  Such sources are outside `Supported`; harness/c03.py checks that they come back in the canonical form.
+(Every other near miss — another step, another comparison, `v + 1`, another variable — is a `repeat while` and must stay one:
+findings F134, F135; the same for `repeat while 1 <= count(l)` loops that merely look like `repeat with x in l`: F136.) -/
+
+def isWithLike (s1 s2 : Stmt) : Bool :=
+  match s1, s2 with
+  | .set (.var k n) _, .repeatWhile (.bin .le (.var k' n') _) body =>
+    k == k' && n == n' &&
+      (match body.getLast? with
+       | some (.set (.var k2 n2) (.bin .add (.int 1) (.var k3 n3))) => k == k2 && n == n2 && k == k3 && n == n3
+       | _ => false)
+  | _, _ => false
+
+mutual
+def Stmt.hasWithLike : Stmt → Bool
+  | .tell _ b => hasWithLikeL b
+  | .repeatWhile _ b => hasWithLikeL b
+  | .repeatWith _ _ _ _ b => hasWithLikeL b
+  | .repeatIn _ _ b => hasWithLikeL b
+  | .ifThen _ t e => hasWithLikeL t || hasWithLikeL e
+  | _ => false
+def hasWithLikeL : List Stmt → Bool
+  | [] => false
+  | s :: ss => s.hasWithLike || (match ss with | s2 :: _ => isWithLike s s2 | [] => false) || hasWithLikeL ss
+end
+
+/-- `Supported`: the domain of `C03_partial` (empty bodies are inside it) -/
+def C03Supported (body : List Stmt) : Bool := (exitClasses body).isEmpty && !hasWithLikeL body
 
 end Drx.Spec
